@@ -269,7 +269,7 @@ def coq_case(line, out):
                 si += 2
                 assert sx[0] == 'X' and sc[0] == 'C'
                 recs = '[' + ';'.join('R %s %s %s' % (P(a), Z(b), Z(c)) for a, b, c in sx[3]) + ']'
-                cnts = '[' + ';'.join('CN %s %s' % (P(n), 'K64' if u64(v) == K else Z(u64(v))) for n, v in sc[1]) + ']'
+                cnts = '[' + ';'.join('CN %s %s' % (P(n), Z(u64(v))) for n, v in sc[1] if u64(v) != K) + ']'      # kCompleted entries omitted (default)
                 ops.append('IExec %s %s %s %s' % (NAT(t[i + 1]), NAT(t[i + 2]), recs, cnts)); i += 3
             elif o == 'S':
                 sg = segs[si]
